@@ -433,7 +433,16 @@ class CustomMode:
 
         # Read the file without forcing its data type
         all_data: "pd.DataFrame" = load_table(custom_file, dtype=None)
-        filtered_data: "pd.DataFrame" = all_data.loc[:, custom_columns]
+        if custom_columns is None:
+            filtered_data: "pd.DataFrame" = all_data
+        else:
+            # Select the columns by position (range 'start' to 'end', 'end' excluded)
+            filtered_data = all_data.iloc[:, custom_columns]
+
+        # The columns are consumed by position (0, 1, 2, ...)
+        filtered_data = filtered_data.set_axis(
+            range(len(filtered_data.columns)), axis="columns"
+        )
 
         # Sanity check
         num_columns = len(filtered_data.columns)
